@@ -86,6 +86,13 @@ class ConvertMonitor:
         if big != 0 and not (Fraction(1, 10**250) < big < 10**250):
             ctx.count("convert/skipped_out_of_float_range")
             return
+        import math
+
+        decades = orc.dynamic_range(src) + orc.dynamic_range(other_unit) + (abs(math.log10(abs(float(m)))) if m else 0)
+        if decades > 280:
+            # some partial product of the plan may leave the float range: not a unit question
+            ctx.count("convert/skipped_intermediate_may_leave_float_range")
+            return
         degree = orc.degree(src, other_unit)
         rel = self.rel * degree
         got = result.magnitude
